@@ -34,7 +34,7 @@ ASSUME = ["clip coverage of a path is the model's antialiased coverage (C01); th
 
 
 def run(ctx):
-    return _scene.run_property(ctx, CFG, 1500, 20000, RULE, concrete, ASSUME, post=C02.post, nontrivial=nontrivial)
+    return _scene.run_property(ctx, CFG, 2500, 20000, RULE, concrete, ASSUME, post=C02.post, nontrivial=nontrivial)
 
 
 def replay(ctx, path):
